@@ -116,7 +116,7 @@ UseByz(kind) == /\ byzUsed < ByzBudget /\ kind \in ByzActs
 NoByz  == UNCHANGED byzUsed
 
 FreshNode == [started |-> FALSE, round |-> 1, acc |-> NoProp, lpr |-> 0, lpv |-> None,
-              decided |-> FALSE, dval |-> None, dround |-> 0, dsigners |-> {}, dlocal |-> FALSE, dfrom |-> 0,
+              decided |-> FALSE, dval |-> None, dround |-> 0, cround |-> 0, cval |-> None, dsigners |-> {}, dlocal |-> FALSE, dfrom |-> 0,
               prep |-> {}, comm |-> {}, rc |-> {}]
 ---------------------------------------------------------------------------
 Init ==
@@ -196,7 +196,7 @@ DoCommit(i, s, r, v) ==
     /\ LET newC == n.comm \cup {[signer |-> s, round |-> r, value |-> v]}
            cs   == Signers({x \in newC : (x.round = r \/ Weaken = "commitAcrossRounds") /\ x.value = v})
        IN IF Card(cs) >= CQuorum
-          THEN Apply(i, [n EXCEPT !.comm = newC, !.decided = TRUE, !.dval = n.acc.value, !.dround = n.round,
+          THEN Apply(i, [n EXCEPT !.comm = newC, !.decided = TRUE, !.dval = n.acc.value, !.dround = n.round, !.cround = n.round, !.cval = n.acc.value,
                                   !.dsigners = cs, !.dlocal = TRUE, !.dfrom = n.acc.from], {})
           ELSE Apply(i, [n EXCEPT !.comm = newC], {})
 
@@ -220,9 +220,9 @@ RecvDecided(i) ==
         /\ IF S \subseteq Honest THEN NoByz ELSE UseByz("decided")
         /\ ~n.decided \/ Card(S) > Card(n.dsigners)       \* otherwise nothing changes (not saved, no report)
         /\ IF ~n.decided
-           THEN Apply(i, [n EXCEPT !.decided = TRUE, !.dval = v, !.round = r, !.dround = r, !.dsigners = S,
+           THEN Apply(i, [n EXCEPT !.decided = TRUE, !.dval = v, !.round = r, !.dround = r, !.cround = r, !.cval = v, !.dsigners = S,
                                    !.comm = @ \cup {[signer |-> s, round |-> r, value |-> v] : s \in S}], {})
-           ELSE Apply(i, [n EXCEPT !.dsigners = S,
+           ELSE Apply(i, [n EXCEPT !.dsigners = S, !.cround = r, !.cval = v,
                                    !.comm = @ \cup {[signer |-> s, round |-> r, value |-> v] : s \in S}], {})
         /\ act' = [name |-> "RecvDecided", to |-> i, round |-> r, value |-> v, signers |-> S, kind |-> "valid"]
 
@@ -235,7 +235,7 @@ RecvForgedDecided(i) ==
         LET n == st[i] IN
         /\ UseByz("decided")
         /\ IF Weaken = "decided:" \o k /\ ~n.decided
-           THEN Apply(i, [n EXCEPT !.decided = TRUE, !.dval = v, !.round = r, !.dround = r, !.dsigners = Byz], {})
+           THEN Apply(i, [n EXCEPT !.decided = TRUE, !.dval = v, !.round = r, !.dround = r, !.cround = r, !.cval = v, !.dsigners = Byz], {})
            ELSE UNCHANGED <<st, sent>>
         /\ act' = [name |-> "RecvForgedDecided", to |-> i, round |-> r, value |-> v, kind |-> k]
 
@@ -251,7 +251,7 @@ RecvRelabeled(i) ==
           THEN LET newC == n.comm \cup {[signer |-> s, round |-> n.round, value |-> n.acc.value] : s \in S}
                    cs == Signers({x \in newC : x.round = n.round /\ x.value = n.acc.value})
                IN IF Card(cs) >= CQuorum
-                  THEN Apply(i, [n EXCEPT !.comm = newC, !.decided = TRUE, !.dval = n.acc.value, !.dround = n.round,
+                  THEN Apply(i, [n EXCEPT !.comm = newC, !.decided = TRUE, !.dval = n.acc.value, !.dround = n.round, !.cround = n.round, !.cval = n.acc.value,
                                           !.dsigners = cs, !.dlocal = TRUE, !.dfrom = n.acc.from], {})
                   ELSE Apply(i, [n EXCEPT !.comm = newC], {})
           ELSE UNCHANGED <<st, sent>>
@@ -341,7 +341,7 @@ CommitQuorumStep(i) ==
           /\ IF S \cap Byz # {} THEN UseByz("commit") ELSE NoByz
           /\ ~(n.decided /\ n.dval = n.acc.value)
           /\ Apply(i, [n EXCEPT !.comm = {[signer |-> s, round |-> n.round, value |-> n.acc.value] : s \in S},
-                               !.decided = TRUE, !.dval = n.acc.value, !.dround = n.round, !.dsigners = S,
+                               !.decided = TRUE, !.dval = n.acc.value, !.dround = n.round, !.cround = n.round, !.cval = n.acc.value, !.dsigners = S,
                                !.dlocal = TRUE, !.dfrom = n.acc.from], {})
           /\ act' = [name |-> "CommitQuorum", to |-> i, signers |-> S, round |-> n.round, value |-> n.acc.value]
 
@@ -359,7 +359,7 @@ DecidedStable == [][\A i \in Honest : st[i].decided => (st'[i].decided /\ st'[i]
    committed to that (round, value); the value passed the value check when decided locally *)
 CertValid == \A i \in Honest : st[i].decided =>
                 /\ Card(st[i].dsigners) >= Q /\ st[i].dsigners \subseteq Ops
-                /\ \A s \in st[i].dsigners \cap Honest : CommSent(s, st[i].dround, st[i].dval)
+                /\ \A s \in st[i].dsigners \cap Honest : CommSent(s, st[i].cround, st[i].cval)
 (* ... and, when decided locally, the decided proposal came from the legitimate leader of its round *)
 LocalDecisionFromLeader == \A i \in Honest : (st[i].decided /\ st[i].dlocal) => st[i].dfrom = Leader(st[i].dround)
 (* an honest operator only ever commits to a value that passed its value check *)
